@@ -343,7 +343,8 @@ class DirectCollocation(SamplingMethod):
             for k in range(self.N):
                 for i, e in enumerate(self.Zc[k]):
                     e_shape = e[algs[var],:].shape
-                    value = DM(opti.debug.value(hcat([self.eval_at_integrator_root(stage, expr, k, i, j) for j in range(e_shape[1])]), opti_initial))                    
+                    # One column per collocation point; a scalar guess is repeated to fit the shape of the algebraic variable
+                    value = hcat([DM.ones(e_shape[0],1)*DM(opti.debug.value(self.eval_at_integrator_root(stage, expr, k, i, j), opti_initial)) for j in range(e_shape[1])])
                     opti.set_initial(e[algs[var],:], value)
 
     def to_function(self, stage, name, args, results, *margs):
